@@ -765,6 +765,9 @@ func parseContractFile(pkg string, path string, f *ast.File, fset *token.FileSet
 			}
 			sf.Macro = isMacro
 			sf.Pkg = pkg
+			if _, dup := cf.SpecFuncs[sf.Name]; dup {
+				errf(it.line, "spec function %s is declared twice in this package (the later one would silently replace the earlier)", sf.Name)
+			}
 			cf.SpecFuncs[sf.Name] = sf
 		case "lemma":
 			reset()
